@@ -3,7 +3,9 @@
 (* below capacity.  One line per run: the AddEvent calls with atomic-counter stamps taken    *)
 (* at call and return, and the order in which the (single) consumer handled the events.      *)
 (* Property: nothing lost, nothing duplicated, and the handling order respects the real-time *)
-(* order of the AddEvent calls (in particular each producer's own order).                    *)
+(* order of the AddEvent calls (in particular each producer's own order); and for every event *)
+(* its prioritised handlers -- one of them registered to run inside AddEvent -- are through    *)
+(* before its ordinary handler starts.                                                         *)
 EXTENDS Integers, Sequences, FiniteSets, Json, TLC
 Trace == ndJsonDeserialize("trace.ndjson")
 VARIABLE l
@@ -17,5 +19,9 @@ RunOK(r, h) ==
     /\ \A a \in 1..Len(r.adds) : Cardinality({j \in 1..Len(h) : h[j] = <<r.adds[a].p, r.adds[a].i>>}) = 1   \* ... or duplicated
     /\ \A a, b \in 1..Len(r.adds) :
           r.adds[a].end < r.adds[b].start => Pos(h, r.adds[a].p, r.adds[a].i) < Pos(h, r.adds[b].p, r.adds[b].i)
-PropertyOK == l > 0 => RunOK(Cur, Cur.handled) /\ Cur.handledPrio = Cur.handled
+\* phases: per event <<end of its prioritised run-in-AddEvent handler (in the producer's goroutine), end of its prioritised
+\* handler in the loop, start of its ordinary handler>> on one atomic clock: prioritised handlers run before ordinary ones
+PhasesOK(r) == /\ Len(r.phases) = Len(r.adds)
+               /\ \A i \in 1..Len(r.phases) : r.phases[i][1] > 0 /\ r.phases[i][1] < r.phases[i][3] /\ r.phases[i][2] < r.phases[i][3]
+PropertyOK == l > 0 => RunOK(Cur, Cur.handled) /\ Cur.handledPrio = Cur.handled /\ PhasesOK(Cur)
 =============================================================================
